@@ -1,10 +1,11 @@
 import Driver.Wire
 import Driver.Size
+import Driver.Peers
 open Anemo Anemo.Driver
 
 /-- state carried across lines by the stateful models -/
 structure DState where
-  dummy : Unit := ()
+  peers : PeersState := {}
 
 def step (st : DState) (line : String) : DState × String :=
   let toks := (line.trimAscii.toString.splitOn " ").filter (· ≠ "")
@@ -14,6 +15,9 @@ def step (st : DState) (line : String) : DState × String :=
     let args := parseArgs rest
     if cmd.startsWith "wire." then (st, wireOp cmd args)
     else if cmd.startsWith "size." then (st, sizeOp cmd args)
+    else if cmd.startsWith "peers." || cmd.startsWith "duo." then
+      let (ps, o) := peersOp st.peers cmd args
+      ({ st with peers := ps }, o)
     else (st, "bad-op")
 
 partial def loop (h : IO.FS.Stream) (out : IO.FS.Stream) (st : DState) : IO Unit := do
